@@ -205,7 +205,8 @@ Definition mstep (s : state) (op : mut_op) : state * list Z :=
   | MMsgSetSender m n i =>
       (set_msgs s (upd_nth m (fun x => mkMsg (m_id x) (m_prio x) (m_static x) (Some (n, i)) (m_bytes x) (m_cycle x) (m_sigs x)) (msgs s)), OK)
   | MMsgSetStatic m cid =>
-      (set_msgs s (upd_nth m (fun x => mkMsg (m_id x) (m_prio x) (Some cid) (m_sender x) (m_bytes x) (m_cycle x) (m_sigs x)) (msgs s)), OK)
+      (* message.go SetStaticCANID: m.id = MessageID(staticCANID) as well *)
+      (set_msgs s (upd_nth m (fun x => mkMsg cid (m_prio x) (Some cid) (m_sender x) (m_bytes x) (m_cycle x) (m_sigs x)) (msgs s)), OK)
   | MBusAssignAttr b a =>
       (set_buses s (upd_nth b (fun x => mkBus (b_baud x) (b_builder x) (b_attrs x ++ [a])) (buses s)), OK)
   | MNodeAttach n i b =>
@@ -451,6 +452,13 @@ Definition run (ops : list op) : state := fold_left (fun s o => fst (step s o)) 
 (* hints, as observed by the harness after every step *)
 Definition hints (s : state) : list Z * list (option Z) :=
   (map n_hint (nodes s), map e_hint (enums s)).
+
+(* what the correspondence check compares: result and hints after every step of a history *)
+Fixpoint replay (s : state) (ops : list op) : list (list Z * (list Z * list (option Z))) :=
+  match ops with
+  | [] => []
+  | o :: r => let (s', res) := step s o in (res, hints s') :: replay s' r
+  end.
 
 (* sequential execution of read-only operations *)
 Fixpoint run_ro (s : state) (qs : list ro_op) : state * list (list Z) :=
